@@ -232,6 +232,28 @@ func c09Build(driver string, threads int) [][]c09Call {
 			}
 			return b1.String() + "\x01" + b2.String(), err
 		}
+	case "H23-wide-and-narrow-loop-scopes":
+		// one request fills the scope of a loop iteration with ten variables (a <template> with many
+		// attributes in the loop body), another reads a variable of its own inside a plain loop: scope
+		// maps are recycled through a process-wide pool
+		pf := Files{
+			"h23_wide.vuego":   `<ul><li v-for="r in rows"><template :title="r.t" a="1" b="2" c="3" d="4" e="5" f="6" g="7" h="8">{{ title }}{{ a }}{{ h }}</template></li></ul>`,
+			"h23_narrow.vuego": `<p v-for="x in xs">{{ title }}-{{ a }}-{{ x }}</p><i>{{ canary }}</i>`,
+		}
+		v := vuego.NewVue(pf.FS())
+		t := vuego.NewFS(pf.FS())
+		for i := range out {
+			i := i
+			wide := map[string]any{"rows": []map[string]any{{"t": fmt.Sprintf("other-%d-1", i)}, {"t": fmt.Sprintf("other-%d-2", i)}}}
+			narrow := map[string]any{"xs": []int{1, 2}, "title": fmt.Sprintf("mine-%d", i), "canary": fmt.Sprintf("CANARY_T%d", i)}
+			if i%2 == 0 {
+				out[i] = []c09Call{mk("wide", func(b *bytes.Buffer) error { return v.Render(b, "h23_wide.vuego", wide) }),
+					mk("narrow", func(b *bytes.Buffer) error { return t.Load("h23_narrow.vuego").Fill(narrow).Render(bg, b) })}
+			} else {
+				out[i] = []c09Call{mk("narrow", func(b *bytes.Buffer) error { return v.Render(b, "h23_narrow.vuego", narrow) }),
+					mk("wide", func(b *bytes.Buffer) error { return t.Load("h23_wide.vuego").Fill(wide).Render(bg, b) })}
+			}
+		}
 	case "H7-renderstring-on-new":
 		t := vuego.NewFS(files.FS()).Fill(c09Data())
 		src := `<ul><li v-for="(i, it) in items" :class="{odd: i}">{{ it | upper }} {{ user.name }}</li></ul><p v-if="n > 2" v-once>{{ title }}</p>`
@@ -430,7 +452,7 @@ func c09WalkH2(nodes []*html.Node, f func(*html.Node)) {
 	}
 }
 
-var c09Drivers = []string{"H1-cold-cache-same-file", "H2-shared-caller-map", "H3-v-once-warm", "H4-unseen-paths-and-expressions", "H4b-path-cache-at-limit", "H5-include-slots-layout-filters", "H6-files-edited-underneath", "H7-renderstring-on-new", "H8-funcs-and-errors", "H9-components-with-v-once-and-wrappers", "H10-same-page-different-data", "H11-front-matter-page-with-template-variables-vue", "H12-front-matter-page-with-template-variables-load", "H13-attribute-slices-with-spare-capacity-vue", "H14-attribute-slices-with-spare-capacity-load", "H15-layout-page-with-v-once-and-shorthand", "H16-layout-page-warm", "H17-shared-defaults-plus-assign", "H18-less-processor", "H19-processor-with-per-render-state", "H20-shared-read-only-data-of-other-map-types", "H21-unseen-expressions-with-variables-named-like-library-functions", "H22-cold-cache-edited-underneath"}
+var c09Drivers = []string{"H1-cold-cache-same-file", "H2-shared-caller-map", "H3-v-once-warm", "H4-unseen-paths-and-expressions", "H4b-path-cache-at-limit", "H5-include-slots-layout-filters", "H6-files-edited-underneath", "H7-renderstring-on-new", "H8-funcs-and-errors", "H9-components-with-v-once-and-wrappers", "H10-same-page-different-data", "H11-front-matter-page-with-template-variables-vue", "H12-front-matter-page-with-template-variables-load", "H13-attribute-slices-with-spare-capacity-vue", "H14-attribute-slices-with-spare-capacity-load", "H15-layout-page-with-v-once-and-shorthand", "H16-layout-page-warm", "H17-shared-defaults-plus-assign", "H18-less-processor", "H19-processor-with-per-render-state", "H20-shared-read-only-data-of-other-map-types", "H21-unseen-expressions-with-variables-named-like-library-functions", "H22-cold-cache-edited-underneath", "H23-wide-and-narrow-loop-scopes"}
 
 // c09Reset puts every piece of process-global state the engine has into its initial state.
 func c09Reset(driver string) {
@@ -798,7 +820,7 @@ func init() {
 		WorkerEnv: func(runDir string) []string {
 			return []string{"GORACE=log_path=" + runDir + "/race halt_on_error=0 exitcode=0 history_size=2", "VERIF_RACE_LOG=" + runDir + "/race"}
 		},
-		Rule: fmt.Sprint(len(c09Drivers)) + " drivers (among them: cold cache on the same file; shared caller map through Vue.Render and Load().Fill; v-once with a warm cache; previously unseen paths and expressions, also with the global path cache two entries below its limit; include+slots+layout+filters+shorthand; page and component edited underneath by an editor thread, with a warm cache and with a cold one (where the engine must serve the new version once every thread is done); RenderString on New(); registered functions and failing renders; components with v-once and wrapper components; one page with different data per thread; a front-matter page that sets per-request variables with top-level <template :var> through Vue.Render and through Load().Fill().Render; inline LESS styles on an engine with files and on an engine for string templates, whose LESS processor has no file system), each with 2 (thorough: also 3) real goroutines on one shared engine. " +
+		Rule: fmt.Sprint(len(c09Drivers)) + " drivers (among them: cold cache on the same file; shared caller map through Vue.Render and Load().Fill; v-once with a warm cache; previously unseen paths and expressions, also with the global path cache two entries below its limit; include+slots+layout+filters+shorthand; page and component edited underneath by an editor thread, with a warm cache and with a cold one (where the engine must serve the new version once every thread is done); RenderString on New(); registered functions and failing renders; components with v-once and wrapper components; one page with different data per thread; a front-matter page that sets per-request variables with top-level <template :var> through Vue.Render and through Load().Fill().Render; inline LESS styles on an engine with files and on an engine for string templates, whose LESS processor has no file system; a loop whose iterations hold ten variables next to a plain loop that reads a variable of its own), each with 2 (thorough: also 3) real goroutines on one shared engine. " +
 			"Every schedule with at most b preemptions is executed under a controlled scheduler that owns every Lock/RLock/Unlock/Pool/Once operation of the vuego module (and file-system opens in the edit driver); per schedule: every call's bytes and error equal one of its solo results, runtime.RaceErrors() did not increase (race detector in the loop, hand-offs invisible to it), no deadlock, no panic. One recorded schedule per driver is replayed and must reproduce exactly. A free-running -race pass of the same bodies complements it. states = schedules executed, transitions = scheduling points; non-trivial = all",
 		Bounds:      map[string]string{"quick": "2 threads, preemption bound 2", "thorough": "2 threads bound 3; 3 threads bound 2"},
 		Assumptions: []string{"sequentially consistent interleavings at synchronisation operations; unsynchronised accesses are caught by the race detector on each explored schedule instead", "cmd/vinstr rewrites every use of package sync in the vuego module (5 files today); other blocking primitives (channels, atomics) are not used by the module"},
